@@ -260,6 +260,12 @@ def eager_contraction_generic_to_tuple(red_op, bin_op, reduced_vars, *terms):
 
 @eager.register(Contraction, AssociativeOp, AssociativeOp, frozenset, tuple)
 def eager_contraction_generic_recursive(red_op, bin_op, reduced_vars, terms):
+    # Pushing reductions into individual terms is valid only if red_op
+    # distributes over bin_op; otherwise (e.g. a sum of sums, which normalize
+    # may create by fusing Reduce(add, x + y)) defer to normalize.
+    if reduced_vars and (red_op, bin_op) not in DISTRIBUTIVE_OPS:
+        return None
+
     # Count the number of terms in which each variable is reduced.
     counts = Counter()
     for term in terms:
